@@ -18,7 +18,6 @@ import (
 
 	"github.com/iotaledger/hive.go/ierrors"
 	"github.com/iotaledger/hive.go/kvstore"
-	"github.com/iotaledger/hive.go/kvstore/debug"
 	"github.com/iotaledger/hive.go/kvstore/flushkv"
 	"github.com/iotaledger/hive.go/kvstore/mapdb"
 )
@@ -36,10 +35,13 @@ type oracle struct {
 	closed  bool
 	realms  map[int]string
 	batches map[int]*obatch
+	stacks  map[int][]wrapCfg // wrapper stack (outermost first) of every view handle
+	bstacks map[int][]wrapCfg // ... of every batch handle
 }
 
 func newOracle() *oracle {
-	return &oracle{m: map[string]string{}, realms: map[int]string{0: ""}, batches: map[int]*obatch{}}
+	return &oracle{m: map[string]string{}, realms: map[int]string{0: ""}, batches: map[int]*obatch{},
+		stacks: map[int][]wrapCfg{0: nil}, bstacks: map[int][]wrapCfg{}}
 }
 
 func (o *oracle) rangeOf(fp string, strip int, bwd bool, stop int, keysOnly bool) string {
@@ -89,6 +91,8 @@ func (o *oracle) expect(f []string) string {
 	num := func(i int) int { n, _ := strconv.Atoi(f[i]); return n }
 	bs := func(i int) string { return string(hx.UnHex(f[i])) }
 	switch f[0] {
+	case "spy":
+		return "ok"
 	case "view":
 		pr, ok := o.realms[num(2)]
 		if !ok {
@@ -97,6 +101,7 @@ func (o *oracle) expect(f []string) string {
 		if o.closed {
 			return "closed"
 		}
+		o.stacks[num(1)] = o.stacks[num(2)]
 		if f[4] == "ext" {
 			o.realms[num(1)] = pr + bs(3)
 		} else {
@@ -110,6 +115,7 @@ func (o *oracle) expect(f []string) string {
 			return "bad-handle"
 		}
 		o.realms[num(1)] = pr
+		o.stacks[num(1)] = append([]wrapCfg{parseCfg(f[3])}, o.stacks[num(2)]...)
 
 		return "ok"
 	case "batch":
@@ -121,6 +127,7 @@ func (o *oracle) expect(f []string) string {
 			return "closed"
 		}
 		o.batches[num(1)] = &obatch{realm: r}
+		o.bstacks[num(1)] = o.stacks[num(2)]
 
 		return "ok"
 	case "bset", "bdel", "commit", "commitf", "cancel":
@@ -138,6 +145,7 @@ func (o *oracle) expect(f []string) string {
 		default:
 			if f[0] == "commitf" {
 				delete(o.batches, num(1))
+				delete(o.bstacks, num(1))
 			}
 			if o.closed {
 				return "closed"
@@ -194,6 +202,9 @@ func (o *oracle) expect(f []string) string {
 		o.delPrefix(r)
 	case "flush":
 	case "iter", "iterk", "iterc":
+		if strings.HasPrefix(f[3], "x") { // unknown direction: GetIterDirection panics (after the closed check), nothing changes
+			return "panic"
+		}
 		ans := o.rangeOf(r+bs(2), len(r), f[3] == "bwd", num(4), f[0] == "iterk")
 		if f[0] == "iterc" {
 			if ans == "kvs" {
@@ -226,6 +237,8 @@ type world struct {
 	stacks  map[int]string // wrapper stack of every view handle, outermost first ("" = bare mapdb, "fd" = flushkv∘debug∘mapdb)
 	batches map[int]*batchRec
 	cbCalls int
+	spy     bool     // the recording store sits between the wrappers and mapdb
+	events  []string // what it and the debug callbacks recorded during the current request
 	counts  map[string]int
 	// consumers that retained the slices they were handed found them changed afterwards
 	retainedFails []string
@@ -309,6 +322,10 @@ func dirArgs(s string) []kvstore.IterDirection {
 	case "bwd":
 		return []kvstore.IterDirection{kvstore.IterDirectionBackward}
 	default:
+		if strings.HasPrefix(s, "x") { // an unknown direction value
+			return []kvstore.IterDirection{kvstore.IterDirection(atoi(s[1:]))}
+		}
+
 		return nil
 	}
 }
@@ -317,6 +334,11 @@ func (w *world) exec(f []string) string {
 	num := func(i int) int { n, _ := strconv.Atoi(f[i]); return n }
 	buf := func(i int) []byte { return hx.UnHex(f[i]) } // a fresh buffer per call
 	switch f[0] {
+	case "spy": // first request of a tree: install the recording store right above mapdb
+		w.views[0] = &spyStore{inner: w.views[0], w: w}
+		w.spy = true
+
+		return "ok"
 	case "view":
 		p, ok := w.views[num(2)]
 		if !ok {
@@ -341,18 +363,20 @@ func (w *world) exec(f []string) string {
 		if !ok {
 			return "bad-handle"
 		}
-		w.stacks[num(1)] = f[3] + w.stacks[num(2)]
+		w.stacks[num(1)] = f[3][:1] + w.stacks[num(2)]
 		if f[3] == "f" {
 			w.views[num(1)] = flushkv.New(p)
 		} else {
-			cb := func(debug.Command, ...[]byte) { w.cbCalls++ }
-			switch num(1) % 3 {
-			case 0:
-				w.views[num(1)] = debug.New(p, cb)
-			case 1:
-				w.views[num(1)] = debug.New(p, cb, debug.SetCommand, debug.IterateCommand)
+			w.views[num(1)] = w.newDebug(p, parseCfg(f[3]))
+			switch cfg := parseCfg(f[3]); {
+			case !cfg.cb:
+				w.counts["debug.New:nil-callback"]++
+			case cfg.given == nil:
+				w.counts["debug.New:no-filter-argument"]++
+			case cfg.filter == 0:
+				w.counts["debug.New:filter=0"]++
 			default:
-				w.views[num(1)] = debug.New(p, nil)
+				w.counts[fmt.Sprintf("debug.New:filter-arguments=%d", len(cfg.given))]++
 			}
 		}
 
@@ -574,6 +598,27 @@ func genCase(rng *hx.Rng, n int) []string {
 			g.depth[h]++
 		}
 	}
+	// two of three trees have the recording store between the wrappers and mapdb: their lines carry the forwarded calls
+	if rng.Chance(2, 3) {
+		ops = append(ops, "spy")
+	}
+	// a debug layer: debug.New(s, cb) | debug.New(s, nil) | debug.New(s, cb, commands...) (Set|Iterate, ShutdownCommand only, random bits)
+	genDbg := func() string {
+		switch rng.Intn(8) {
+		case 0, 1, 2:
+			return "d"
+		case 3:
+			return "dn"
+		case 4:
+			return "d16,1"
+		case 5:
+			return "d0"
+		case 6:
+			return fmt.Sprintf("d%d", rng.Intn(256))
+		default:
+			return fmt.Sprintf("d%d,%d", 1<<rng.Intn(8), 1<<rng.Intn(8))
+		}
+	}
 	// wrapper stack at the root: mapdb, flushkv∘mapdb, debug∘mapdb, flushkv∘debug∘mapdb, debug∘flushkv∘mapdb
 	switch rng.Intn(6) {
 	case 1:
@@ -581,17 +626,17 @@ func genCase(rng *hx.Rng, n int) []string {
 		addView(0, fmt.Sprintf("wrap %d 0 f", h), h, true)
 	case 2:
 		h := newHandle()
-		addView(0, fmt.Sprintf("wrap %d 0 d", h), h, true)
+		addView(0, fmt.Sprintf("wrap %d 0 %s", h, genDbg()), h, true)
 	case 3:
 		h := newHandle()
-		addView(0, fmt.Sprintf("wrap %d 0 d", h), h, true)
+		addView(0, fmt.Sprintf("wrap %d 0 %s", h, genDbg()), h, true)
 		h2 := newHandle()
 		addView(h, fmt.Sprintf("wrap %d %d f", h2, h), h2, true)
 	case 4:
 		h := newHandle()
 		addView(0, fmt.Sprintf("wrap %d 0 f", h), h, true)
 		h2 := newHandle()
-		addView(h, fmt.Sprintf("wrap %d %d d", h2, h), h2, true)
+		addView(h, fmt.Sprintf("wrap %d %d %s", h2, h, genDbg()), h2, true)
 	}
 	pickView := func() int {
 		// prefer recent views (deeper in the tree / more wrapped), but keep using all of them
@@ -602,6 +647,14 @@ func genCase(rng *hx.Rng, n int) []string {
 		return hx.Pick(rng, g.views)
 	}
 	dirs := []string{"fwd", "fwd", "bwd", "bwd", "def"}
+	// pickDir: now and then an unknown direction value (GetIterDirection panics; the store must stay usable)
+	pickDir := func() string {
+		if rng.Chance(1, 40) {
+			return fmt.Sprintf("x%d", hx.Pick(rng, []int{2, 3, 7, 255}))
+		}
+
+		return hx.Pick(rng, dirs)
+	}
 	// keyFor: a key for a request on a handle with realm `realm`: mostly one that addresses an entry written
 	// earlier (possibly through another view), otherwise a fresh random one
 	keyFor := func(realm string) string {
@@ -646,13 +699,13 @@ func genCase(rng *hx.Rng, n int) []string {
 			if rng.Chance(2, 5) {
 				stop = rng.Range(1, 4)
 			}
-			ops = append(ops, fmt.Sprintf("iter %d %s %s %d", v, prefixFor(g.realm[v]), hx.Pick(rng, dirs), stop))
+			ops = append(ops, fmt.Sprintf("iter %d %s %s %d", v, prefixFor(g.realm[v]), pickDir(), stop))
 		case x < 670:
 			stop := 0
 			if rng.Chance(2, 5) {
 				stop = rng.Range(1, 4)
 			}
-			ops = append(ops, fmt.Sprintf("iterk %d %s %s %d", v, prefixFor(g.realm[v]), hx.Pick(rng, dirs), stop))
+			ops = append(ops, fmt.Sprintf("iterk %d %s %s %d", v, prefixFor(g.realm[v]), pickDir(), stop))
 		case x < 680:
 			ops = append(ops, fmt.Sprintf("iterc %d %s %s %d", v, genBytes(rng, 1, alphabet), hx.Pick(rng, dirs), rng.Intn(3)))
 		case x < 775:
@@ -670,7 +723,11 @@ func genCase(rng *hx.Rng, n int) []string {
 				continue
 			}
 			h := newHandle()
-			addView(v, fmt.Sprintf("wrap %d %d %s", h, v, hx.Pick(rng, []string{"f", "d"})), h, true)
+			wt := "f"
+			if rng.Bool() {
+				wt = genDbg()
+			}
+			addView(v, fmt.Sprintf("wrap %d %d %s", h, v, wt), h, true)
 		case x < 810:
 			ops = append(ops, fmt.Sprintf("realm %d", v))
 		case x < 825:
@@ -788,6 +845,8 @@ func runCase(r *hx.Run, sub uint64, ops []string) {
 		w, o := ws[tree], os[tree]
 		var ans string
 		want := "bad-op"
+		var wantTr []string
+		traced := false
 		if f[0] == "copy" || f[0] == "copyb" {
 			if p := hx.Safely(func() { ans = execCopy(ws, f) }); p != "" {
 				ans = "panic"
@@ -813,7 +872,12 @@ func runCase(r *hx.Run, sub uint64, ops []string) {
 			if want == "ok" {
 				r.Count(fmt.Sprintf("copy:trees:%s->%s", f[1], f[3]))
 			}
+			ws[0].events, ws[1].events = nil, nil
 		} else {
+			traced = w.spy
+			if p := hx.Safely(func() { wantTr = o.expectTrace(f) }); p != "" {
+				wantTr = []string{"bad-op"}
+			}
 			if p := hx.Safely(func() { ans = w.exec(f) }); p != "" {
 				ans = "panic"
 			}
@@ -821,7 +885,21 @@ func runCase(r *hx.Run, sub uint64, ops []string) {
 				want = "bad-op"
 			}
 		}
-		r.Line(op, ans)
+		if traced {
+			// what reached the store below the wrappers and the debug callbacks, in order
+			r.Line(op, strings.Join(append([]string{ans, ";"}, w.events...), " "))
+			if got, wantS := strings.Join(w.events, " "), strings.Join(wantTr, " "); got != wantS {
+				r.Fail("wrapper-forwarding", fmt.Sprintf("%q through the stack %q: forwarded calls / callbacks [%s], expected [%s] (callbacks of the "+
+					"debug layers whose filter has the command, outermost first; the call; one Flush per flushkv layer after a mutation that "+
+					"succeeded); history: %v", op, w.stackOf(f), got, wantS, r.CaseLines()),
+					map[string]string{"op": f[0], "oracle": "wrapper-forwarding"})
+			}
+			r.CountN("traced-events", len(w.events))
+			r.Count(fmt.Sprintf("trace-len:%d", min(len(w.events), 6)))
+		} else {
+			r.Line(op, ans)
+		}
+		w.events = nil
 		for _, d := range w.retainedFails {
 			r.Fail("retained-keys-differ", d+"; history: "+fmt.Sprint(r.CaseLines()),
 				map[string]string{"op": f[0], "oracle": "retained-keys-differ"})
@@ -875,6 +953,25 @@ func runCase(r *hx.Run, sub uint64, ops []string) {
 
 func atoi(s string) int { n, _ := strconv.Atoi(s); return n }
 
+// stackOf: the wrapper stack of the handle request f addresses (for messages).
+func (w *world) stackOf(f []string) string {
+	switch f[0] {
+	case "bset", "bdel", "commit", "commitf", "cancel":
+		if b, ok := w.batches[atoi(f[1])]; ok {
+			return b.stack
+		}
+
+		return ""
+	case "view", "batch", "wrap":
+		return w.stacks[atoi(f[2])]
+	}
+	if len(f) < 2 {
+		return ""
+	}
+
+	return w.stacks[atoi(f[1])]
+}
+
 var corpus = [][]string{
 	// realms that are prefixes of one another; a prefix that straddles the realm boundary
 	{"view 1 0 01 abs", "view 2 1 ff ext", "view 3 0 01ff abs", "set 1 ff00 0a", "get 2 00", "get 3 00", "set 2 - 0b",
@@ -899,6 +996,13 @@ var corpus = [][]string{
 	{"wrap 1 0 f", "wrap 2 1 d", "view 3 2 01 ext", "set 3 00 01", "batch 8 3", "bset 8 01 02", "close 3", "get 0 0100", "has 1 00",
 		"set 2 00 00", "del 3 00", "delp 0 -", "clear 1", "iter 2 - fwd 0", "iterk 3 - bwd 0", "view 4 0 00 abs", "view 5 3 00 ext",
 		"batch 7 0", "flush 0", "flush 1", "commit 8", "bset 8 00 00", "cancel 8", "commitf 8", "realm 3", "close 0", "wrap 6 3 f", "get 6 00"},
+	// what the wrappers forward: flushkv lets Flush follow every successful mutation (once per layer), debug reports to its
+	// callback according to its filter, WithExtendedRealm of a wrapper = Realm + WithRealm; closed store: no Flush
+	{"spy", "wrap 1 0 f", "wrap 2 1 d", "wrap 3 2 f", "wrap 4 3 d16,1", "wrap 5 4 dn", "wrap 6 5 d0", "view 7 6 01 ext", "view 8 7 02 ext",
+		"view 9 0 03 ext", "view 10 6 04 abs", "set 8 aa 01", "get 8 aa", "has 8 aa", "del 8 aa", "delp 8 -", "clear 8", "flush 8", "realm 8",
+		"iter 8 - bwd 0", "iterk 8 - def 1", "batch 20 8", "bset 20 aa 01", "bdel 20 bb", "commit 20", "cancel 20", "commitf 20", "set 0 00 01",
+		"iterc 8 - fwd 0", "set 8 aa 01", "iterc 8 - fwd 0", "iter 8 - x7 0", "iterk 1 - x2 0", "get 8 aa", "batch 21 3", "bset 21 00 00",
+		"close 8", "set 8 aa 01", "set 3 aa 01", "commit 21", "iter 8 - x7 0", "view 11 8 01 ext", "flush 3", "clear 3", "get 99 00", "bset 99 00 00"},
 	// wrappers and a consumer that clears the view while iterating
 	{"wrap 1 0 d", "wrap 2 1 f", "view 3 2 7f ext", "set 3 00 01", "set 3 01 02", "set 0 7f 03", "set 0 00 04", "iterc 3 - bwd 0",
 		"iter 0 - fwd 0", "iterc 2 - fwd 1", "iter 0 - fwd 0", "iterc 0 - fwd 0"},
